@@ -210,6 +210,18 @@ CHECKS = {
              "(the library's arc construction is not reversal-invariant for inconsistent angle/axis data).",
         technique="TLA+ spec Xform.tla/Lattice.tla: TLC-enumerated exact affine maps and images; metamorphic replay into the API",
         ref="DESIGN.md section 4 C09"),
+    "C11": dict(
+        text="Every shape class, sketch-based shape (disk, oval, wrapped, spline sketches), stack and joint, alone and in "
+             "chains (chain/expand/contract/fill), is built in random placement/size/segment count, chopped with its "
+             "documented chop calls, assembled and written; TLC (Blocking.tla) judges the recorded vertex indexes: no quad is "
+             "a side of more than two blocks, blocks sharing >= 3 vertices share a whole side, connected through common "
+             "sides, positive corner Jacobians, class vertex count, outer arcs on the intended circle/cone, writing succeeds, "
+             "chained shapes share exactly the interface vertices.",
+        note="Jacobian signs and arc-on-circle are harness predicates over vertex positions (Hex.tla convention); vertex-count "
+             "formulas are given for the classes where the statement implies one. Fixtures choose senses of rotation that "
+             "carry faces along their normals.",
+        technique="TLA+ spec Blocking.tla/Hex.tla as trace acceptor over recorded assemblies (topological clauses evaluated by TLC)",
+        ref="DESIGN.md section 4 C11"),
 }
 
 def main():
